@@ -57,3 +57,17 @@ package benchmath
 //@   ensures !(isInf(s.Lo) || isInf(s.Hi)) && s.Center == 0.0 && s.Lo == 0.0 && s.Hi == 0.0 ==> r == "0%"
 //@   ensures !(isInf(s.Lo) || isInf(s.Hi)) && ((s.Center > 0.0 && s.Lo > 0.0 && s.Hi > 0.0) || (s.Center < 0.0 && s.Lo < 0.0 && s.Hi < 0.0)) ==>
 //@             r == sprintf("%.0f%%", iface(100.0 * math.Max(s.Hi/s.Center - 1.0, 1.0 - s.Lo/s.Center)))
+
+// ---------------------------------------------------------------------------
+// Median confidence interval cache (C13): what the cache returns for (n,
+// confidence) is what QuantileCI computes for exactly that pair.
+
+//@ pure func medianCacheOK(c *sync.Map) bool = forall n int, conf float64 :: has(syncmap(c), iface(mkstruct(ciKey, n, conf))) ==>
+//@     typeis(syncmap(c)[iface(mkstruct(ciKey, n, conf))], stats.QuantileCIResult) &&
+//@     as(syncmap(c)[iface(mkstruct(ciKey, n, conf))], stats.QuantileCIResult) == stats.QuantileCI(n, 0.5, conf)
+
+//@ func medianCI(n int, confidence float64) (ci stats.QuantileCIResult)
+//@   props C13
+//@   requires medianCacheOK(addr(medianCache))
+//@   modifies syncmap(addr(medianCache))
+//@   ensures medianCacheOK(addr(medianCache)) && ci == stats.QuantileCI(n, 0.5, confidence)
